@@ -77,6 +77,17 @@ func jobsFor(id, tier string) []*Job {
 	}
 	_ = wmk
 	switch id {
+	case "C17":
+		lexOv := map[string]string{"(*github.com/Syuparn/pangaea/parser.Lexer).Lex": "parser.vLex"}
+		for _, j := range []Job{mk("int", "zzverifw.H_C17_int", ints(0, 3)), mk("expint", "zzverifw.H_C17_expint", nil), mk("str", "zzverifw.H_C17_str", nil), mk("float", "zzverifw.H_C17_float", nil)} {
+			j.Overrides = lexOv
+			if len(j.Params) > 0 {
+				add(split(j)...)
+			} else {
+				jj := j
+				add(&jj)
+			}
+		}
 	case "C16":
 		reads := 4
 		if thorough {
@@ -310,6 +321,8 @@ func assumptionsFor(id string) []string {
 		"harness oracles written from the property statement and docs (DESIGN.md Appendix B)",
 	}
 	switch id {
+	case "C17":
+		return append(common, "literals: one-token programs through the real yyParse actions (token feed in the engine, real lexer natively); spellings are solver choices from pools built around the representability boundaries; oracle = positional value computed by the harness (ints), whole-literal correctly rounded conversion (floats), the documented escapes (strings)", "names: see coverage.extra.names_assumptions (token table executed from the repo, regexps translated to SMT regular languages)")
 	case "C16":
 		return append(common, "the lexer buffer is a LenStr: its content is abstracted away and its length is a symbolic term (len, +, slicing, string(buf[:n]) are length arithmetic)", "token types are contract stubs: the true token at the current position has symbolic length T; a greedy class (identifier, comment, blank-line run) matches min(T, buffered) bytes, a delimited class (string, raw string) matches only when completely buffered; earlier and later token types do not match", "reader stub: returns a symbolic count c with 1 <= c <= min(len(p), remaining) (chunked) or exactly that minimum (full reader), then io.EOF", "stubs in the engine only: shiftPos (position bookkeeping) and makeError (wording of the error message); strings.LastIndex on the abstract buffer answers not-found", "one Scan from an arbitrary state satisfying the invariant buf = prefix of the unread input: an inductive step, so the length of the file is unbounded")
 	case "C02":
@@ -355,6 +368,16 @@ func assumptionsFor(id string) []string {
 func boundsFor(id, tier string, jobs []*Job) map[string]interface{} {
 	b := map[string]interface{}{"tier": tier}
 	switch id {
+	case "C17":
+		b["int_literals"] = "decimal / hex / octal / binary: 7..16 spellings each (underscores, leading zeros, prefix case, values at and beyond 2^63-1 and 2^64-1)"
+		b["exponent_ints"] = "9 mantissas x 11 exponents x e/E"
+		b["floats"] = "14 spellings incl. subnormal, max, overflow, double-rounding-sensitive decimals"
+		b["strings"] = "17 bodies: documented escapes, multi-byte text, undefined escapes"
+		if tier == "thorough" {
+			b["names"] = "all names of length <= 12"
+		} else {
+			b["names"] = "all names of length <= 8"
+		}
 	case "C16":
 		b["state"] = "buffered bytes 0..4096, unread input 0..8192, token length 1..1024 and 1..6000 (each symbolic)"
 		b["reader"] = "full reader and arbitrary short reads"
@@ -483,6 +506,8 @@ func boundsFor(id, tier string, jobs []*Job) map[string]interface{} {
 
 func outsideFor(id string) []string {
 	switch id {
+	case "C17":
+		return []string{"integer and string spellings outside the pools (digits are not symbolic: no symbolic-content strings in the engine)", "symbols and property positions of names (only variable position is replayed)", "raw strings, char literals, embedded strings' pieces", "names longer than the bound or outside ASCII"}
 	case "C16":
 		return []string{"which grammar positions accept a line break (grammar + RET regex; only 'a long run is one token' is covered)", "the regular expressions themselves (token types are contract stubs)", "tokens whose recognition depends on more than the token itself being buffered (look-ahead beyond the token)", "source containing NUL bytes", "position / line bookkeeping"}
 	case "C02":
